@@ -28,7 +28,7 @@ func init() {
 		ID: "C04", Level: "model_checking",
 		Rule:   "AX: BFS over (config, peer decoder table, allowed size, pending announcement); transitions = header block of 1-2 AppendHeader(field, store, sensitive) calls over an alphabet of static hits, dynamic hits, new names (empty, 1 byte, '00000000', trailing NUL) x value lengths (0,1,127,128,300) or SetMaxTableSize(v); every emitted block decoded by the strict reference and x/net, tables compared. Non-trivial: history has >= 1 earlier op or block has 2 fields or a size change is pending; distinct by (state, op).",
 		Assume: []string{"ref/hpack.go is RFC 7541 (x/net decodes every emitted block too; disagreements counted)", "the peer applies SETTINGS_HEADER_TABLE_SIZE = v at the moment SetMaxTableSize(v) is called on the encoder"},
-		Run:    runC04, Replay: replayC04, QuickS: 45, ThoroughS: 600,
+		Run:    runC04, Replay: replayC04, QuickS: 120, ThoroughS: 600,
 	})
 }
 
@@ -71,6 +71,8 @@ type c04Model struct {
 	pending   bool
 	minSince  int
 	announced int
+	// lastShape: what the last emitted block consisted of (representation kinds, in order, run-length collapsed)
+	lastShape string
 }
 
 func nameClass(n string) string {
@@ -147,6 +149,16 @@ func c04Eval(cs c04Case, c *fw.Ctx) (*fw.Violation, *c04Model) {
 		needShrink := m.pending && m.minSince < m.t.Max
 		before := m.t.Clone()
 		got, err := ref.DecodeBlock(m.t, enc)
+		var shape [8]byte
+		ns := 0
+		for _, g := range got {
+			k := byte('0' + int(g.Rep)%10)
+			if (ns == 0 || shape[ns-1] != k) && ns < len(shape) {
+				shape[ns] = k
+				ns++
+			}
+		}
+		m.lastShape = string(shape[:ns])
 		xf, xerr := xd.DecodeFull(enc)
 		if c != nil && last {
 			if (xerr == nil) != (err == nil) {
@@ -355,6 +367,8 @@ func runC04(c *fw.Ctx) {
 					if v != nil {
 						c.Violate(*v)
 						c.Outcome(v.Rule)
+					} else if m != nil {
+						c.Outcome("agree:" + m.lastShape)
 					} else {
 						c.Outcome("agree")
 					}
